@@ -14,6 +14,7 @@ import sys
 
 from common import Check, Driver, Infra, VERIF, sarpy_guard
 import c13x
+import c13t
 
 sys.path.insert(0, os.path.join(VERIF, 'translate'))
 
@@ -334,6 +335,7 @@ def run(tier):
     chk = Check('C13', tier)
     rng = chk.rng
     xs = c13x.Session(chk, tier)          # C13x: regenerates Gen/NitfTables2*.lean (must exist before the driver is built)
+    ts = c13t.Session(chk, tier)          # C13t: regenerates Gen/TreTables*.lean from the TRE modules (same)
     import tables_nitf
     gen = tables_nitf.generate(os.path.join(VERIF, 'lean', 'SarpyModel', 'Gen', 'NitfTables.lean'))
     gen_info = {'table_driven': sorted(gen['tables']), 'overrides': gen['overrides'], 'loops': gen['loops'], 'changed': gen['changed']}
@@ -363,6 +365,7 @@ def run(tier):
                 chk.coverage['obligations'] = chk.coverage.get('obligations', 0) + 1
                 chk.coverage['discharged'] = chk.coverage.get('discharged', 0) + 1
                 chk.coverage.setdefault('theorems', []).append(nm)
+    broken += ts.prove()
 
     fails = []
     stats = {}
@@ -416,6 +419,7 @@ def run(tier):
         body = ';'.join(s.encode().hex() or '-' for s in items) or '-'
         jobs.append(('loop', py, None, drv.ask(f'nitf loop 1 s80 {body}'), None))
     xs.enqueue(drv)
+    ts.enqueue(drv)
     try:
         ans = drv.run()
     except Infra as e:
@@ -446,29 +450,56 @@ def run(tier):
     disagreements += d2
     stats.update(s2)
     classes_seen |= set(s2.get('x_classes', []))
+    f3, d3, s3 = ts.collect(ans)
+    fails += f3
+    disagreements += d3
+    stats.update(s3)
+    classes_seen |= {'TRE:' + n for n in ts.cov}
     chk.coverage.update({
         'evaluations': stats.get('instances', 0) + stats.get('rejections', 0) + stats.get('model_records', 0)
-                       + stats.get('x_instances', 0) + stats.get('x_model_records', 0) + stats.get('x_tre_lists', 0),
+                       + stats.get('x_instances', 0) + stats.get('x_model_records', 0) + stats.get('x_tre_lists', 0)
+                       + stats.get('t_payloads', 0) + stats.get('t_model_records', 0) + stats.get('t_dispatch_cases', 0) + stats.get('t_probes', 0)
+                       + stats.get('t_snapshot_payloads', 0),
         'distinct_nontrivial': len(classes_seen),
         'rule': 'instances of every NITF 2.1/2.0 element class (defaults + random accepted values: edge-of-width integers incl. negatives, strings up to the width, '
                 'enumerations; file headers with 0-4 item arrays; image subheaders with 1-12 bands incl. the >9 extension, LUTs with 1-3 tables, 0-9 comments, '
                 'conditional IGEOLO; mask tables of 1-12 blocks; user headers with unknown TREs); a separate stream of values that do not fit; '
+                'registered TREs: payload values generated from each translated description (constants of every condition round robin + other text, '
+                'mask bits at random, loop counts cycling through 1, 2, 0, 3 and 4..12, lengths 0 / 1 / 2 / 5 / maximum, integers at both ends of the '
+                'width incl. negatives, text empty / one character / full width, bytes random / 00 / FF / ASCII, floats incl. infinities and -0), '
+                'until every condition was seen true and false (5..14 payloads per TRE quick, 200+ thorough); one right-justified-text variant per TRE; '
                 'distinct = element classes instantiated; non-trivial = the instance encodes to at least one byte',
         'samples': [f'{l}: {inst.to_bytes()[:48]!r}' for l, inst in insts[:3] if not isinstance(inst, Exception)],
         'stats': stats,
-        'traces_validated_against_impl': stats.get('model_records', 0) + stats.get('x_model_records', 0) + stats.get('x_tre_lists', 0),
+        'traces_validated_against_impl': stats.get('model_records', 0) + stats.get('x_model_records', 0) + stats.get('x_tre_lists', 0)
+                                         + stats.get('t_decoded', 0) + stats.get('t_expected_refusals', 0),
         'disagreements_checked': len(disagreements),
     })
     chk.assumptions += [
         'reflection-based translator tables_nitf.py (kinds/widths read from descriptors and _lengths on every run)',
         'classes with hand-written byte logic (listed under translator.overrides) enter the model as opaque raw fields: their internal layout is covered by the byte-level oracle only',
-        'TREs: only captured payloads found under tests/data are replayed; TRE control flow is not modelled',
+        'registered TREs: the field layout (widths, conditions, loops, computed lengths) of every registered TRE is translated from the AST of the TRE '
+        'modules by translate/tables_tre.py on every run and each description is kernel-checked well formed; the fidelity of the translator is '
+        'not proved - it is checked on every run by the payload cross-check (values generated from the descriptions, encoded by the Lean codec, '
+        'decoded by sarpy and compared field by field / byte by byte; see coverage.tre_coverage for what was exercised)',
+        'TRE text fields are modelled as ASCII (acceptance refuses bytes >= 128); ieee754_binary32 fields as 4 opaque bytes (NaN payloads are '
+        'not generated: CPython quiets signalling NaNs on unpack); non-digit bytes in a field read by int() make sarpy refuse, the model reads 0 '
+        '(such payloads are not generated)',
+        'translate/tre_snapshot.json (the TRE layouts of the pinned commit) is the reference layout for the search; it was taken from sarpy '
+        'itself, not transcribed from STDI-0002',
         "Python's '{:0wd}' / '{:ws}' formatting is specified by Spec.FieldFmt.encInt / encStr and validated by this correspondence",
         'standard-side lengths (MIL-STD-2500C) are a hand transcription',
     ]
     nk = kernels2.run_kernels(rng, tier, ['tpxcd'], fails, disagreements, stats)
     chk.coverage['evaluations'] = chk.coverage.get('evaluations', 0) + nk
     unknown = [f for f in fails if not (f.get('key') and chk.known(f['key']))]
+    # one case per distinct defect first (key, else element / TRE name), so that the five reported cases are five different things
+    first, rest, seen_groups = [], [], set()
+    for f in unknown:
+        g = f.get('key') or (f.get('kind'), f.get('tre') or str(f.get('case')))
+        (rest if g in seen_groups else first).append(f)
+        seen_groups.add(g)
+    unknown = first + rest
     for f in unknown[:5]:
         chk.violation(f['msg'], {'case': f, 'replay_cmd': './check C13 --replay <this file>'}, True)
     if len(unknown) > 5:
@@ -481,6 +512,9 @@ def run(tier):
 
 
 def replay(path):
+    sarpy_guard()
     case = json.load(open(path))['case']
     print(json.dumps(case)[:1500])
+    if isinstance(case, dict) and case.get('tre') and case.get('bytes'):
+        return c13t.replay_case(case)
     return 1
